@@ -404,10 +404,10 @@ def step1 (s : Eng) (line : String) : Eng × String :=
   | "reopen" :: rest =>
     if !s.opened then (s, "bad-op") else
     let primary := match rest with | [r] => r == "primary" | _ => s.primary
-    if !s.hasDB then ({ opened := true, primary := primary, compress := s.compress }, "ok") else
+    if !s.hasDB then ({ opened := true, primary := primary, compress := s.compress, backup := s.backup }, "ok") else
     (match Recovery.openDB { s with primary := primary } with
      | .ok s' => (s', "ok")
-     | .error m => if m.startsWith "panic" then (s, m) else ({ compress := s.compress }, "err open"))
+     | .error m => if m.startsWith "panic" then (s, m) else ({ compress := s.compress, backup := s.backup }, "err open"))
   | ["import", d] =>
     if !s.opened then (s, "bad-op") else
     (match bytesOf d with
